@@ -314,8 +314,8 @@ impl TimeDuration {
             && self.minutes.abs() < 60f64
             && self.seconds.abs() < 60f64
             && self.milliseconds.abs() < 1000f64
-            && self.milliseconds.abs() < 1000f64
-            && self.milliseconds.abs() < 1000f64
+            && self.microseconds.abs() < 1000f64
+            && self.nanoseconds.abs() < 1000f64
     }
 
     #[inline]
